@@ -56,3 +56,16 @@ check("C25", "exploration",
   "Trusted: the flattening model (include replaced by optional $ORIGIN o + contents + restoring $ORIGIN), the repository's single-stream parser as the oracle for record syntax on the flattened text.",
   "deterministic simulation: simulated file system with injected I/O faults, reference flattening model",
   "E3 simrt-sequential", "DESIGN.md section 4 (C25)")
+ENGINES[1]["serves_properties"] = ["C10", "C24", "C25", "C26", "C27", "C31"]
+ENGINES.append({"name": "E4 seam-fault-enum", "path": "sim/harness/src/props/c01.rs", "serves_properties": ["C01"],
+  "kind_free_text": "fault enumerator at the transport seam (Server::handle_message): exhaustive single-fault neighbourhood (truncation, substitution, count bumps, appends, tail duplication) of every corpus request x both transports x server configurations, plus seeded fault pairs; runs inside a one-task execution because the hooked Server needs the simulated runtime"})
+check("C10", "exploration",
+  "Seeded request sequences signed by an independent RFC 8945 implementation against the real server whose SystemTime::now() reads a simulated wall clock: client clock skew up to +-70000 s with mass on the fudge-window edges, server clock steps forwards/backwards between requests, fudge {0,1,300,65535}, MAC truncation {full, half, 10, 9, half-1, full+1}, tampered octets, wrong secret, unknown key, key configured for the other algorithm, unknown algorithm, UDP/TCP, EDNS, key-name case. Oracle = reference decision in RFC order (key, MAC size, MAC, time) and, per outcome, RCODE / TSIG error / empty MAC / no answer data / response MAC verified by the independent implementation / BADTIME fields / signed answer == unsigned answer. Sampling, not proof.",
+  "Trusted: the harness's RFC 8945 digest assembly and HMAC construction (hash compression functions sha1/sha2 trusted). Wall clock kept inside [0, 2^40] s.",
+  "deterministic simulation: simulated wall clock with injected steps and per-client skew, independent reference signer/verifier",
+  "E3 simrt-sequential", "DESIGN.md section 4 (C10)")
+check("C01", "fault_enumeration",
+  "Exhaustive enumeration of the single-fault neighbourhood (truncation to every length; at every offset substitution by 10 values; every header count set to 0/+1/0xffff; junk appended; tail duplicated) of every request shape the simulated clients send (60 shapes quick, 400 thorough) on both transports under 8 server configurations (empty catalog, loaded/unloaded/failed entries, zones with malformed stored RDATA or without SOA, key sets, RRL, payload sizes), plus seeded random fault pairs; oracle: handle_message never unwinds. The property's own quantifier (all byte strings) is NOT covered: this decides the fault neighbourhood of realistic traffic only.",
+  "Scope is the corpus neighbourhood, not all inputs. One known finding is listed in known_findings.json (TSIG RR that cannot fit a UDP response). The server instance is rebuilt after an unwind.",
+  "deterministic simulation family, fault enumeration at the transport seam (exhaustive single faults + seeded pairs), unwind oracle",
+  "E4 seam-fault-enum", "DESIGN.md section 4 (C01)")
